@@ -42,6 +42,8 @@ func (x *Exec) topEnv(fn *ssa.Function, params, fvs []Val) map[string]Val {
 // generate symbolically executes fn against its contract and collects obligations.
 func (x *Exec) generate(fn *ssa.Function) {
 	x.top = fn
+	// the element-level codec model (tape.go) is used by the mirror lemmas only
+	x.tapeMode = strings.HasPrefix(fn.Name(), "lemmaMirror")
 	c := x.cs.forFunc(fn)
 	st := newState()
 	var params, fvs []Val
